@@ -8,7 +8,7 @@ from __future__ import annotations
 import copy
 
 __all__ = ["unit", "native", "sym_int", "sym_bool", "sym_fixed", "sym_map", "sym_list", "assume", "check", "reach", "note",
-           "implies", "ite", "all_of", "split", "run_slice", "stub", "unstub", "snapshot", "same", "check_same"]
+           "implies", "ite", "all_of", "split", "run_slice", "stub", "unstub", "snapshot", "same", "check_same", "require"]
 
 UNITS = {}
 MODEL = {}
@@ -181,6 +181,14 @@ def ite(c, a, b):
     return a if c else b
 
 
+def require(what, cond):
+    """harness-structure guard: the contract's picture of the source (slice found, call captured, ...) must hold,
+    otherwise the unit is UNDECIDED -- it says nothing about the code, so it is never a violation"""
+    from . import slices
+    if not cond:
+        raise slices.SliceMismatch(what)
+
+
 def run_slice(module, qualname, if_test, env0, keep, capture_calls=(), nth=0):
     import ast as _ast
     import importlib
@@ -189,13 +197,17 @@ def run_slice(module, qualname, if_test, env0, keep, capture_calls=(), nth=0):
     with open(m.__file__) as f:
         tree = _ast.parse(f.read())
     body = slices.select(tree, qualname, if_test, nth)
-    items = slices.keep_statements(body, set(keep), tuple(capture_calls))
+    items = slices.keep_statements(body, set(keep), tuple(capture_calls), tuple(env0))
     env = dict(env0)
     tests, captured = [], []
     g = m.__dict__
     for kind, node in items:
         if kind == "stmt":
-            exec(compile(_ast.fix_missing_locations(_ast.Module([node], [])), "<slice>", "exec"), g, env)
+            try:
+                exec(compile(_ast.fix_missing_locations(_ast.Module([node], [])), "<slice>", "exec"), g, env)
+            except (NameError, AttributeError) as e:
+                # the sliced statement needs context the slice dropped (a helper on self, a token): harness mismatch
+                raise slices.SliceMismatch("sliced statement `%s` needs dropped context: %s" % (_ast.unparse(node)[:80], e))
         else:
             try:
                 v = eval(compile(_ast.fix_missing_locations(_ast.Expression(node)), "<slice>", "eval"), g, env)
@@ -205,6 +217,9 @@ def run_slice(module, qualname, if_test, env0, keep, capture_calls=(), nth=0):
     env["__tests__"] = tests
     env["__captured__"] = captured
     env["__n_statements__"] = len([1 for kind, _ in items if kind == "stmt"])
+    for kname in keep:
+        if kname not in env:
+            raise slices.SliceMismatch("the slice does not define `%s`" % kname)
     return env
 
 
@@ -292,11 +307,14 @@ def _diff(x, y, path, out):
         elif x[1:] != y[1:]:
             out.append(path)
     elif tag == "obj":
-        if x[1] != y[1] or x[2] != y[2] or set(x[3]) != set(y[3]) or (x[4] is None) != (y[4] is None):
+        if x[1] != y[1] or x[2] != y[2] or (x[4] is None) != (y[4] is None):
             out.append(path)
             return
+        for f in sorted(set(x[3]) ^ set(y[3])):
+            out.append(path + "." + f)
         for f in x[3]:
-            _diff(x[3][f], y[3][f], path + "." + f, out)
+            if f in y[3]:
+                _diff(x[3][f], y[3][f], path + "." + f, out)
         if x[4] is not None:
             if len(x[4]) != len(y[4]):
                 out.append(path + "[]")
